@@ -161,6 +161,27 @@ def boundary_files(rng):
     return files
 
 
+def short_palette_files(rng):
+    """indexed files (every depth, interlaced or not) whose PLTE is shorter than the pixel indices in use: decoders render the
+    missing entries as opaque black; with and without a tRNS entry"""
+    files = []
+    for depth in (1, 2, 4, 8):
+        for il in (False, True):
+            for npal in ((1,) if depth == 1 else (1, 3) if depth == 2 else (3, 9)):
+                w, h = rng.choice([(5, 4), (9, 3), (4, 7)])
+                top = min(1 << depth, npal + 4)
+                idx = [rng.randrange(top) for _ in range(w * h)]
+                idx[rng.randrange(w * h)] = top - 1           # at least one index beyond the palette
+                pal = [(rng.randrange(256), rng.randrange(256), rng.randrange(256), rng.choice([255, 255, 0, 77])) for _ in range(npal)]
+                if rng.random() < 0.5:
+                    pal = [(c[0], c[0], c[0], c[3]) for c in pal]      # grey palettes reach the grey target of indexed_to_channels
+                px = [[(idx[y * w + x],) for x in range(w)] for y in range(h)]
+                tok = pg.img_token(w, h, 3, depth, il, pal, pg.pack_image(px, w, h, 3, depth, il))
+                b = e2e.png_from_token(rng, tok, simple=True)
+                files.append(b)
+    return files
+
+
 def chunk_spans(b):
     spans = []
     off = 8
@@ -276,6 +297,27 @@ def run(rep):
             cid = f"b{len(lines)}"
             lines.append(f"{cid} mem {o} {b.hex()}")
             meta[cid] = ("boundary:" + kind, len(b), o, b, kind)
+    # every reduction stage is gated by its own option, so a stage may meet an image that an earlier (now disabled) stage would
+    # have normalised: files with pixel indices beyond a short palette, boundary files and the plain corpus under vectors that
+    # switch the stages on and off independently
+    toggled = [("short-palette", b) for b in short_palette_files(rng)] + [("boundary:" + k, b) for k, b in boundary_files(rng)[::2]] + \
+              [("plain", b) for k, b in files if k == "plain"][::3]
+    for kind, b in toggled:
+        vecs = {"pal=0,fast=0", "preset=3,pal=0", "pal=0,bd=0,fast=0", "ct=0,gray=0", "preset=4,bd=0"}
+        while len(vecs) < (9 if quick else 24):
+            v = [f"{k}={rng.randrange(2)}" for k in ("bd", "ct", "pal", "gray", "alpha", "fast", "scale16") if rng.random() < 0.6]
+            if rng.random() < 0.4:
+                v.append(f"preset={rng.randrange(7)}")
+                v.reverse()            # the preset first: it resets the other fields
+            if rng.random() < 0.3:
+                v.append(f"interlace={rng.choice(['0', '1'])}")
+            if rng.random() < 0.15:
+                v.append("timeout=0")
+            vecs.add(",".join(v) or "-")
+        for o in sorted(vecs):
+            cid = f"g{len(lines)}"
+            lines.append(f"{cid} mem {o} {b.hex()}")
+            meta[cid] = ("toggles:" + kind.split(":")[0], len(b), o, b, kind)
     # absurd headers (F3/F4/F11 reproducers) and raw tuples
     def hdr_png(w, h, depth, ct, il, idat=b"\x78\x9c\x03\x00\x00\x00\x00\x01"):
         return pg.SIG + pg.chunk("IHDR", pg.ihdr_bytes(w, h, depth, ct, il)) + pg.chunk("IDAT", idat) + pg.chunk("IEND", b"")
